@@ -20,8 +20,9 @@ from WallGo.polynomial import Polynomial
 
 from symx import core, npx
 from symx.core import AND, OR, NOT, Cond, Sym, eq, ge, gt, le, lt, ne
-from symx.harness import HarnessDef
+from symx.harness import HarnessDef, bare
 from props.hydrokit import Result, ScipyStubs
+from props.c13 import h_tmunu
 
 EXPLANATION = __doc__
 BOUNDS = {"fields": "1 or 2 scalar fields", "particles": "0, 1 or 2 out-of-equilibrium particles",
@@ -40,7 +41,7 @@ class LoopBound(core.PathAbort):
 
 def make_eom(h, nfields, nparticles, unroll=3):
     h.patch(EOMM, float=npx.symfloat, np=npx.NP())
-    eom = EOMM.EOM.__new__(EOMM.EOM)
+    eom = bare(EOMM.EOM)
     names_v = [f"a{i}" for i in range(nfields)] + ["T"]
 
     def mk(name, default):
@@ -239,6 +240,12 @@ HARNESSES = [
                random_validation=1, concrete_alarms=False),
     HarnessDef("profile-bookkeeping", h_profile, [dict()], max_paths=50, timeout_s=30,
                encodes=[EOMM.EOM.findPlasmaProfile], random_validation=1, concrete_alarms=False),
+    # the out-of-equilibrium part entering s1 = c1 - T30_out, s2 = c2 - T33_out is the boosted
+    # moment integral for the velocity of THIS call, also when the same EOM object was used at
+    # another wall velocity before (the claims above take T30_out/T33_out from the code)
+    HarnessDef("moments-boost-history", h_tmunu, [dict(nparticles=1, npts=1, history=True)],
+               [dict(nparticles=2, npts=2, history=True)], max_paths=4, timeout_s=60,
+               encodes=[EOMM.EOM.deltaToTmunu], random_validation=3),
 ]
 
 MANIFEST = {
